@@ -79,7 +79,7 @@ theorem consume_sess (g : Cfg) (s : St) (a : Ans) (h : SessOk s) : SessOk (consu
   | closed => exact h
   | err => simp only [closeWith]; split <;> exact sessOk_congr s _ rfl rfl h
 
-theorem taskRead_sess (g : Cfg) (s : St) : (taskRead g s).sess = s.sess ∧ (taskRead g s).deqD = s.deqD := by
+theorem taskRead_sess (g : Cfg) (s : St) (b : Bool) : (taskRead g s b).sess = s.sess ∧ (taskRead g s b).deqD = s.deqD := by
   unfold taskRead
   split
   · exact ⟨rfl, rfl⟩
@@ -119,19 +119,23 @@ theorem sessOk_step (g : Cfg) (s s' : St) (a : Act) (h : SessOk s) (hs : step g 
     unfold tstep at hs
     split at hs
     · cases hs
-    · cases hs; exact sessOk_congr s _ (taskRead_sess g s).1 (taskRead_sess g s).2 h
-    · next a ht =>
+    · cases hs; exact sessOk_congr s _ (taskRead_sess g s _).1 (taskRead_sess g s _).2 h
+    · next a hb ht =>
       cases hs
       have hc := consume_sess g s a h
       cases hnx : (consume g s a).1 with
-      | again => exact sessOk_congr (consume g s a).2 _ (taskRead_sess g _).1 (taskRead_sess g _).2 hc
+      | again => exact sessOk_congr (consume g s a).2 _ (taskRead_sess g _ _).1 (taskRead_sess g _ _).2 hc
       | dead => exact sessOk_congr (consume g s a).2 _ rfl rfl hc
       | brk =>
         simp only [taskNext]
+        have hcl : ∀ t : St, (closeHang t).sess = t.sess ∧ (closeHang t).deqD = t.deqD := by
+          intro t; unfold closeHang; split <;> exact ⟨rfl, rfl⟩
+        split
+        · exact sessOk_congr (consume g s a).2 _ (hcl _).1 (hcl _).2 hc
         split
         · exact sessOk_congr (consume g s a).2 _ (rearm_sess _).1 (rearm_sess _).2 hc
         · split <;> exact sessOk_congr (consume g s a).2 _ rfl rfl hc
-    · cases hs; exact sessOk_congr s _ (taskRead_sess g s).1 (taskRead_sess g s).2 h
+    · cases hs; exact sessOk_congr s _ (taskRead_sess g s _).1 (taskRead_sess g s _).2 h
 
 theorem sessOk_run (g : Cfg) (as : List Act) : ∀ s, SessOk s → SessOk (run g s as) := by
   induction as with
